@@ -1,13 +1,11 @@
 package main
 
 import (
-	"time"
-	"verif/shim/vclock"
-	"verif/shim/vsched"
 	"bytes"
 	"context"
 	"crypto/rand"
 	"crypto/rsa"
+	"crypto/x509"
 	"encoding/base64"
 	"encoding/json"
 	"errors"
@@ -15,8 +13,12 @@ import (
 	"math/big"
 	"net/http"
 	"net/url"
+	"os"
 	"strings"
 	"sync"
+	"time"
+	"verif/shim/vclock"
+	"verif/shim/vsched"
 
 	"github.com/coreos/go-oidc/v3/oidc"
 	"golang.org/x/oauth2"
@@ -30,7 +32,7 @@ const idpIssuer = "https://idp.example"
 
 type IdP struct {
 	SchedPoint bool // requests are scheduling points of the running exploration
-	mu sync.Mutex
+	mu         sync.Mutex
 	// Issuer is the provider URL (scripted transport: https://idp.example; loopback server: http://127.0.0.1:port)
 	Issuer string
 	// Mode decides how /userinfo answers: honour | unknown | error500 | transport
@@ -172,7 +174,7 @@ func InstallIdP() *IdP {
 		theIdP.Codes = map[string]CodeBehaviour{}
 		return theIdP
 	}
-	key, err := rsa.GenerateKey(rand.Reader, 2048)
+	key, err := idpKey()
 	if err != nil {
 		infra("rsa: %v", err)
 	}
@@ -190,4 +192,17 @@ func InstallIdP() *IdP {
 	}
 	theIdP = p
 	return p
+}
+
+// idpKey: the scripted provider's signing key. Child processes of a cold-start exploration (one process per
+// execution) take the key their parent wrote, instead of generating one each.
+func idpKey() (*rsa.PrivateKey, error) {
+	if f := os.Getenv("VERIF_IDP_KEY"); f != "" {
+		if b, err := os.ReadFile(f); err == nil {
+			if k, err := x509.ParsePKCS1PrivateKey(b); err == nil {
+				return k, nil
+			}
+		}
+	}
+	return rsa.GenerateKey(rand.Reader, 2048)
 }
